@@ -96,6 +96,9 @@ class BundleInstance:
         dest: Union[Role, Enum, None] = None,
         desc: Optional[str] = None,
     ):
+        if not isinstance(of, Bundle):
+            # (An instance where its definition was meant, `BundleInstance(of=B())`, a `Module`, ...)
+            raise TypeError(f"Invalid `of` for a BundleInstance: {of} is not a Bundle")
         self.name = name
         self.of = of
         self.port = port  # FIXME: make this a `Visibility`
